@@ -15,7 +15,14 @@
        "loading" --FlightLoad-->  the loader returns a fresh value
        "loaded"  --FlightStore--> stores it iff the generation is still the one read at
                                   the start (GenCheck), finishes the flight
-     thread running reset(): generation + 1, cache emptied.   thread "tick": clock + 1.
+     thread running reset(): "start" --ResetEnter--> parks at pc.reset.enter (before the mutex)
+                             "r1" --ResetMid-->  takes the mutex, generation + 1, parks at
+                                                 pc.reset.mid still holding it
+                             "r2" --ResetEnd-->  cache emptied, mutex released
+     thread "tick": clock + 1.
+   With Locked = TRUE the other critical sections wait while a reset holds the mutex (the
+   code); with Locked = FALSE the mutex is ignored: that variant only enumerates gate
+   interleavings (also ones the current code forbids), its invariants are not checked.
 
    The model is used (a) to check the property's invariants on the design, (b) with
    GenCheck = FALSE to show they are not vacuous, (c) to enumerate/sample gate-point
@@ -28,21 +35,30 @@ CONSTANTS Threads,    \* e.g. {"t1","t2","t3"}
           MaxLoads,   \* bound on the number of load threads in a program
           TTL,        \* ticks an entry stays fresh
           GenCheck,   \* BOOLEAN
+          Locked,     \* BOOLEAN
           Export      \* BOOLEAN
 
 VARIABLES prog, pc, fpc, tgen, waitOn, fval, fres, gen, now, cache, nextVal, ans,
-          startGen, valEndGen, h
+          startGen, valEndGen, lock, h
 
 vars == <<prog, pc, fpc, tgen, waitOn, fval, fres, gen, now, cache, nextVal, ans,
-          startGen, valEndGen, h>>
+          startGen, valEndGen, lock, h>>
 View == <<prog, pc, fpc, tgen, waitOn, fval, fres, gen, now, cache, nextVal, ans,
-          startGen, valEndGen>>
+          startGen, valEndGen, lock>>
 
 Ops == [op : {"load"}, key : Keys] \cup [op : {"reset"}] \cup [op : {"tick"}]
 None == [val |-> 0, exp |-> 0]
 
+\* thread names are interchangeable: only programs whose operations are sorted along a fixed
+\* enumeration of the threads are explored
+Ord == CHOOSE f \in [Threads -> 1..Cardinality(Threads)] : \A s, t \in Threads : s # t => f[s] # f[t]
+KeyRank == CHOOSE f \in [Keys -> 1..Cardinality(Keys)] : \A j, k \in Keys : j # k => f[j] # f[k]
+Rank(o) == IF o.op = "load" THEN KeyRank[o.key] ELSE IF o.op = "reset" THEN 100 ELSE 101
+Sorted(f) == \A s, t \in Threads : Ord[s] < Ord[t] => Rank(f[s]) <= Rank(f[t])
+
 Init == /\ prog \in {f \in [Threads -> Ops] :
-                       Cardinality({t \in Threads : f[t].op = "load"}) \in 1..MaxLoads}
+                       /\ Cardinality({t \in Threads : f[t].op = "load"}) \in 1..MaxLoads
+                       /\ Sorted(f)}
         /\ pc = [t \in Threads |-> "start"]
         /\ fpc = [t \in Threads |-> "none"]
         /\ tgen = [t \in Threads |-> 0]
@@ -55,21 +71,23 @@ Init == /\ prog \in {f \in [Threads -> Ops] :
         /\ ans = [t \in Threads |-> 0]
         /\ startGen = [t \in Threads |-> 0]
         /\ valEndGen = <<>>
+        /\ lock = "none"
         /\ h = <<>>
 
 Fresh(k) == cache[k].val # 0 /\ now < cache[k].exp
 Key(t) == prog[t].key
 Active(l) == fpc[l] \in {"enter", "loading", "loaded"}
+Free == ~Locked \/ lock = "none"      \* the mutex can be taken
 
 LoadStart(t) ==
-    /\ pc[t] = "start" /\ prog[t].op = "load"
+    /\ pc[t] = "start" /\ prog[t].op = "load" /\ Free
     /\ tgen' = [tgen EXCEPT ![t] = gen]
     /\ startGen' = [startGen EXCEPT ![t] = gen]
     /\ IF Fresh(Key(t))
          THEN ans' = [ans EXCEPT ![t] = cache[Key(t)].val] /\ pc' = [pc EXCEPT ![t] = "done"]
          ELSE UNCHANGED ans /\ pc' = [pc EXCEPT ![t] = "miss"]
     /\ h' = Append(h, t)
-    /\ UNCHANGED <<prog, fpc, waitOn, fval, fres, gen, now, cache, nextVal, valEndGen>>
+    /\ UNCHANGED <<prog, fpc, waitOn, fval, fres, gen, now, cache, nextVal, valEndGen, lock>>
 
 JoinFlight(t) ==
     /\ pc[t] = "miss"
@@ -81,16 +99,16 @@ JoinFlight(t) ==
                 /\ fpc' = [fpc EXCEPT ![t] = "enter"]
     /\ pc' = [pc EXCEPT ![t] = "wait"]
     /\ h' = Append(h, t)
-    /\ UNCHANGED <<prog, tgen, fval, fres, gen, now, cache, nextVal, ans, startGen, valEndGen>>
+    /\ UNCHANGED <<prog, tgen, fval, fres, gen, now, cache, nextVal, ans, startGen, valEndGen, lock>>
 
 FlightEnter(l) ==
-    /\ fpc[l] = "enter"
+    /\ fpc[l] = "enter" /\ Free
     /\ IF tgen[l] = gen /\ Fresh(Key(l))
          THEN /\ fres' = [fres EXCEPT ![l] = cache[Key(l)].val]
               /\ fpc' = [fpc EXCEPT ![l] = "fin"]
          ELSE /\ fpc' = [fpc EXCEPT ![l] = "loading"] /\ UNCHANGED fres
     /\ h' = Append(h, l \o "f")
-    /\ UNCHANGED <<prog, pc, tgen, waitOn, fval, gen, now, cache, nextVal, ans, startGen, valEndGen>>
+    /\ UNCHANGED <<prog, pc, tgen, waitOn, fval, gen, now, cache, nextVal, ans, startGen, valEndGen, lock>>
 
 FlightLoad(l) ==
     /\ fpc[l] = "loading"
@@ -99,40 +117,55 @@ FlightLoad(l) ==
     /\ valEndGen' = Append(valEndGen, gen)
     /\ fpc' = [fpc EXCEPT ![l] = "loaded"]
     /\ h' = Append(h, l \o "f")
-    /\ UNCHANGED <<prog, pc, tgen, waitOn, fres, gen, now, cache, ans, startGen>>
+    /\ UNCHANGED <<prog, pc, tgen, waitOn, fres, gen, now, cache, ans, startGen, lock>>
 
 FlightStore(l) ==
-    /\ fpc[l] = "loaded"
+    /\ fpc[l] = "loaded" /\ Free
     /\ IF ~GenCheck \/ tgen[l] = gen
          THEN cache' = [cache EXCEPT ![Key(l)] = [val |-> fval[l], exp |-> now + TTL]]
          ELSE UNCHANGED cache
     /\ fres' = [fres EXCEPT ![l] = fval[l]]
     /\ fpc' = [fpc EXCEPT ![l] = "fin"]
     /\ h' = Append(h, l \o "f")
-    /\ UNCHANGED <<prog, pc, tgen, waitOn, fval, gen, now, nextVal, ans, startGen, valEndGen>>
+    /\ UNCHANGED <<prog, pc, tgen, waitOn, fval, gen, now, nextVal, ans, startGen, valEndGen, lock>>
 
 Return(t) ==
     /\ pc[t] = "wait" /\ fpc[waitOn[t]] = "fin"
     /\ ans' = [ans EXCEPT ![t] = fres[waitOn[t]]]
     /\ pc' = [pc EXCEPT ![t] = "done"]
-    /\ UNCHANGED <<prog, fpc, tgen, waitOn, fval, fres, gen, now, cache, nextVal, startGen, valEndGen, h>>
+    /\ UNCHANGED <<prog, fpc, tgen, waitOn, fval, fres, gen, now, cache, nextVal, startGen, valEndGen, h, lock>>
 
-Reset(t) ==
+ResetEnter(t) ==
     /\ pc[t] = "start" /\ prog[t].op = "reset"
+    /\ pc' = [pc EXCEPT ![t] = "r1"]
+    /\ h' = Append(h, t)
+    /\ UNCHANGED <<prog, fpc, tgen, waitOn, fval, fres, gen, now, cache, nextVal, ans, startGen, valEndGen, lock>>
+
+ResetMid(t) ==
+    /\ pc[t] = "r1" /\ Free
     /\ gen' = gen + 1
+    /\ lock' = t
+    /\ pc' = [pc EXCEPT ![t] = "r2"]
+    /\ h' = Append(h, t)
+    /\ UNCHANGED <<prog, fpc, tgen, waitOn, fval, fres, now, cache, nextVal, ans, startGen, valEndGen>>
+
+ResetEnd(t) ==
+    /\ pc[t] = "r2"
     /\ cache' = [k \in Keys |-> None]
+    /\ lock' = "none"
     /\ pc' = [pc EXCEPT ![t] = "done"]
     /\ h' = Append(h, t)
-    /\ UNCHANGED <<prog, fpc, tgen, waitOn, fval, fres, now, nextVal, ans, startGen, valEndGen>>
+    /\ UNCHANGED <<prog, fpc, tgen, waitOn, fval, fres, gen, now, nextVal, ans, startGen, valEndGen>>
 
 Tick(t) ==
     /\ pc[t] = "start" /\ prog[t].op = "tick"
     /\ now' = now + 1
     /\ pc' = [pc EXCEPT ![t] = "done"]
     /\ h' = Append(h, t)
-    /\ UNCHANGED <<prog, fpc, tgen, waitOn, fval, fres, gen, cache, nextVal, ans, startGen, valEndGen>>
+    /\ UNCHANGED <<prog, fpc, tgen, waitOn, fval, fres, gen, cache, nextVal, ans, startGen, valEndGen, lock>>
 
-Next == \E t \in Threads : \/ LoadStart(t) \/ JoinFlight(t) \/ Return(t) \/ Reset(t) \/ Tick(t)
+Next == \E t \in Threads : \/ LoadStart(t) \/ JoinFlight(t) \/ Return(t) \/ Tick(t)
+                           \/ ResetEnter(t) \/ ResetMid(t) \/ ResetEnd(t)
                            \/ FlightEnter(t) \/ FlightLoad(t) \/ FlightStore(t)
 Spec == Init /\ [][Next]_vars
 
